@@ -98,6 +98,51 @@ theorem source_envelope_flags_are_model : ∀ flags : UInt8,
     Enveloper.decodeFlags .connectStreamClient flags = Gen.decodeFlags_connectStreamClientProtocolSrc flags :=
   forall_uint8 (by decide +kernel)
 
+/-- **Source tie of the envelope encoders.**  `Gen.encodeFlags_*Src` are translated from the `encodeEnvelope`
+    methods on every run, statement by statement (the flag byte starts at 0; `if env.f { envBytes[0] = N }`,
+    `if env.f { envBytes[0] |= N }`; the length written by `binary.BigEndian.PutUint32(envBytes[1:], env.length)`;
+    a delegating method as that delegation).  For every envelope the model's flag byte is the source's. -/
+theorem source_envelope_encoders_are_model (env : Envelope) :
+    Enveloper.encodeFlags .grpcServer env = Gen.encodeFlags_grpcServerProtocolSrc env.compressed env.trailer ∧
+    Enveloper.encodeFlags .grpcClient env = Gen.encodeFlags_grpcClientProtocolSrc env.compressed env.trailer ∧
+    Enveloper.encodeFlags .grpcWebServer env = Gen.encodeFlags_grpcWebServerProtocolSrc env.compressed env.trailer ∧
+    Enveloper.encodeFlags .grpcWebClient env = Gen.encodeFlags_grpcWebClientProtocolSrc env.compressed env.trailer ∧
+    Enveloper.encodeFlags .connectStreamServer env = Gen.encodeFlags_connectStreamServerProtocolSrc env.compressed env.trailer ∧
+    Enveloper.encodeFlags .connectStreamClient env = Gen.encodeFlags_connectStreamClientProtocolSrc env.compressed env.trailer := by
+  obtain ⟨t, c, n⟩ := env
+  cases t <;> cases c <;> exact ⟨rfl, rfl, rfl, rfl, rfl, rfl⟩
+
+/-- What the peer's decoder makes of five envelope bytes. -/
+def readBack (dec : Enveloper) : Bytes → Option Envelope
+  | [f, a, b, c, d] => dec.decode f a b c d
+  | _ => none
+
+/-- **An envelope the transcoder writes is read back as the same envelope by the decoder of the same dialect**
+    (for every envelope with a 32-bit length): what it writes to a client (`*Client.encodeEnvelope`) is what a
+    transcoder in front of it reads from a backend (`*Server.decodeEnvelope`), end-of-stream bit included where the
+    dialect has one; what it writes to a backend (`*Server.encodeEnvelope`) is what it reads from a client
+    (`*Client.decodeEnvelope`), where no end-of-stream bit exists.  So a flag byte written here is never one
+    that `source_envelope_flags_are_model`'s decoders reject, and compressed / end-of-stream are never swapped. -/
+theorem written_envelopes_are_read_back (env : Envelope) (h : env.length < 4294967296) :
+    readBack .grpcWebServer (Enveloper.encode .grpcWebClient env) = some env ∧
+    readBack .connectStreamServer (Enveloper.encode .connectStreamClient env) = some env ∧
+    readBack .grpcServer (Enveloper.encode .grpcClient env) = some { env with trailer := false } ∧
+    readBack .grpcClient (Enveloper.encode .grpcServer env) = some { env with trailer := false } ∧
+    readBack .grpcWebClient (Enveloper.encode .grpcWebServer env) = some { env with trailer := false } ∧
+    readBack .connectStreamClient (Enveloper.encode .connectStreamServer env) = some { env with trailer := false } := by
+  obtain ⟨t, c, n⟩ := env
+  have hl : fromBe32 (UInt8.ofNat (n / 16777216 % 256)) (UInt8.ofNat (n / 65536 % 256)) (UInt8.ofNat (n / 256 % 256))
+      (UInt8.ofNat (n % 256)) = n := by
+    unfold fromBe32
+    simp only [UInt8.toNat_ofNat']
+    simp only at h
+    omega
+  cases t <;> cases c <;>
+    simp [readBack, Enveloper.encode, Enveloper.encodeFlags, Enveloper.decode, Enveloper.decodeFlags, be32, hl] <;> decide
+
+example : readBack .grpcWebServer (Enveloper.encode .grpcWebClient { trailer := true, compressed := true, length := 70000 })
+    = some { trailer := true, compressed := true, length := 70000 } := by decide
+
 /-- **Every complete message is delivered exactly, then a clean end** (see `Lemmas/Chunking.lean`). -/
 theorem complete_messages_delivered_exactly (w : World) (ce : Enveloper) (fs : List Frame) (st : St) (n : Nat)
     (hce : st.op.clientEnveloper = some ce) (hok : ∀ x ∈ fs, x.ok ce st.op.conf.maxMsg)
